@@ -55,7 +55,10 @@ def handler(job):
             pim.pixel_size = op[1]
         elif k == "fit":
             d = [np.array(x, dtype=float) for x in op[1]]
-            pim.fit(d if len(d) > 1 or op[3] else d[0], skew=bool(op[2]))
+            if len(op) > 4 and op[4]:      # the fitting entry point that also renders
+                pim.fit_transform(d if len(d) > 1 or op[3] else d[0], skew=bool(op[2]))
+            else:
+                pim.fit(d if len(d) > 1 or op[3] else d[0], skew=bool(op[2]))
         out.append(observe(pim, job["tick"]))
     return {"obs": out}
 
